@@ -1,10 +1,12 @@
 """C19 — narrow-phase queries terminate (exit discipline only)."""
+from . import scopes
 from ..core.report import DOMAIN_D
 from ..rules import loops, safediv
 from .common import NARROW_PHASE, lib_module_names
 
 
 def run(idx, rep, tier):
+    rep.set_scope(scopes.scope(idx, "C19"))
     rep.explanation = (
         "Engine E4 classifies every loop of the narrow-phase modules (all GJK flavours, EPA, MPR, mesh hill climbing, "
         "self-collision): CAP (counter vs bound advanced on every path; continue paths must clear a one-way flag), STRUCT "
@@ -13,6 +15,6 @@ def run(idx, rep, tier):
         "iteration; termination NOT proved: mpr._refine_portal). Anchor loops must keep the class confirmed by reading. "
         "R-SAFEDIV: in MPR, the closed-form support functions and norm_vector every division by a magnitude (norm, sqrt, sum, a callee's distance) sits on the non-zero side of a test of that magnitude, so touching / coincident placements do not produce NaN; mpr._contact_position's fallback weights are UNKNOWN. The bound of 1000 support evaluations and finiteness of the GJK/EPA outputs are not decided.")
     rep.assumptions = DOMAIN_D
-    mods = NARROW_PHASE if tier == "quick" else lib_module_names(idx)
+    mods = lib_module_names(idx)        # every loop reachable from a narrow-phase entry point (scope filter), wherever it lives
     loops.r_loop(idx, rep, mods, floor=14)
-    safediv.r_safediv(idx, rep)
+    safediv.r_safediv(idx, rep, floor=6)
